@@ -4,7 +4,7 @@ import re
 import subprocess
 import time
 from concurrent.futures import ThreadPoolExecutor
-from .framework import VERIF, WORK, Inconclusive
+from .framework import VERIF, WORK, KANI_DIR, Inconclusive
 
 
 def _run_one(h, timeout, extra=(), playback=False):
@@ -17,7 +17,7 @@ def _run_one(h, timeout, extra=(), playback=False):
     t0 = time.time()
     try:
         # 12 GB address-space cap per CBMC: an out-of-memory run must not take the box down
-        p = subprocess.run(['bash', '-c', 'ulimit -v 16000000; exec "$@"', 'x'] + args, cwd=os.path.join(VERIF, 'kani'), env=env,
+        p = subprocess.run(['bash', '-c', 'ulimit -v 16000000; exec "$@"', 'x'] + args, cwd=KANI_DIR, env=env,
                            stdout=subprocess.PIPE, stderr=subprocess.STDOUT, text=True, timeout=timeout)
         out = p.stdout
     except subprocess.TimeoutExpired as e:
@@ -56,7 +56,7 @@ def _run_one(h, timeout, extra=(), playback=False):
 
 def run_kani(harnesses, timeout=900, jobs=6):
     """harnesses: list of names -> dict name -> result"""
-    lock = os.path.join(VERIF, 'kani', 'Cargo.lock')
+    lock = os.path.join(KANI_DIR, 'Cargo.lock')
     if not os.path.exists(lock):
         import shutil
         shutil.copy('/repo/Cargo.lock', lock)
